@@ -627,3 +627,285 @@ Proof.
   - split; reflexivity.
   - exact Hv.
 Qed.
+
+(* ------------------------------------------------------------------------------------ *)
+(* (I1) dimensions an operation does not name keep their raw bytes in every record        *)
+(* ------------------------------------------------------------------------------------ *)
+Lemma failed_step_unchanged s o : snd (step s o) <> Ok tt -> fst (step s o) = s.
+Proof.
+  destruct o as [ps|names|n vals|vals|]; cbn [step].
+  - unfold do_add. destruct (negb _); [reflexivity|]. destruct (sync_vlrs _ _); cbn [fst snd]; [congruence|reflexivity].
+  - unfold do_remove. destruct (negb _); [reflexivity|]. destruct (sync_vlrs _ _); cbn [fst snd]; [congruence|reflexivity].
+  - unfold do_assign. destruct (find_dim _ _); [|reflexivity]. destruct (_ && _); cbn [fst snd]; [congruence|reflexivity].
+  - unfold do_assign_std. destruct (std_size _); [|reflexivity]. destruct (_ && _); cbn [fst snd]; [congruence|reflexivity].
+  - unfold do_roundtrip. destruct (write_state s); [|reflexivity]. destruct (read_state _); cbn [fst snd]; [congruence|reflexivity].
+Qed.
+
+Lemma std_bytes_step s o : Inv s -> op_touches_std o = false ->
+  map fst (st_recs (fst (step s o))) = map fst (st_recs s).
+Proof.
+  intros Hinv Ht. destruct o as [ps|names|n vals|vals|]; cbn [step]; try discriminate.
+  - unfold do_add. destruct (negb _); [reflexivity|]. destruct (sync_vlrs _ _); [|reflexivity].
+    cbn [fst st_recs]. rewrite map_map. reflexivity.
+  - unfold do_remove. destruct (negb _); [reflexivity|]. destruct (sync_vlrs _ _); [|reflexivity].
+    cbn [fst st_recs]. rewrite map_map. reflexivity.
+  - unfold do_assign. destruct (find_dim _ _); [|reflexivity]. destruct (_ && _) eqn:Ec; [|reflexivity].
+    apply andb_true_iff in Ec as [Hl _]. apply Nat.eqb_eq in Hl. cbn [fst st_recs]. rewrite map_map.
+    rewrite <- (map_snd_combine vals (st_recs s) Hl) at 2. rewrite map_map. apply map_ext. now intros [v r].
+  - now rewrite do_roundtrip_id.
+Qed.
+
+Lemma lookup_set_other n n0 v m : n <> n0 ->
+  lookup n (map (fun kv : list Z * list Z => if name_eqb (fst kv) n0 then (fst kv, v) else kv) m) = lookup n m.
+Proof.
+  intros Hne. induction m as [|[k b] m IH]; [reflexivity|]. cbn [map fst].
+  destruct (name_eqb k n0) eqn:E; cbn [lookup].
+  - apply name_eqb_eq in E. subst k. rewrite name_eqb_neq by congruence. exact IH.
+  - destruct (name_eqb k n); [reflexivity|exact IH].
+Qed.
+
+Lemma frame_realloc std ex ex' recs n : (forall r, In r recs -> rec_wf std ex r) -> NoDup (extra_names ex) ->
+  In n (extra_names ex) -> In n (extra_names ex') ->
+  map (field_of n) (map (realloc ex') recs) = map (field_of n) recs.
+Proof.
+  intros Hwf Hnd Hin Hin'. rewrite map_map. apply map_ext_in. intros r Hr. unfold field_of. rewrite realloc_snd.
+  destruct (proj1 (rec_wf_entries _ _ _) (Hwf r Hr)) as [_ Hm].
+  destruct (lookup_present_name ex (snd r) n Hm Hnd Hin) as (b & Hb). rewrite Hb. now apply lookup_realloc.
+Qed.
+
+Theorem step_frame s o n : Inv s -> In n (extra_names (st_extras s)) -> ~ In n (op_names o) ->
+  In n (extra_names (st_extras (fst (step s o))))
+  /\ map (field_of n) (st_recs (fst (step s o))) = map (field_of n) (st_recs s).
+Proof.
+  intros Hinv Hin Hnot. pose proof Hinv as [(std & Hstd & Hpos & Hrecs) Hdims [Hnd Hns] Hvlr].
+  apply nodupb_NoDup in Hnd.
+  destruct o as [ps|names|n0 vals|vals|]; cbn [step op_names] in *.
+  - unfold do_add. destruct (negb _); [now split|]. destruct (sync_vlrs _ _); [|now split]. cbn [fst st_extras st_recs].
+    assert (In n (extra_names (st_extras s ++ ps))) as Hin' by (unfold extra_names; rewrite map_app; apply in_or_app; now left).
+    split; [exact Hin'|]. now apply (frame_realloc std (st_extras s)).
+  - unfold do_remove. destruct (negb _); [now split|]. destruct (sync_vlrs _ _); [|now split]. cbn [fst st_extras st_recs].
+    assert (In n (extra_names (filter (fun d => negb (mem_name (ed_name d) names)) (st_extras s)))) as Hin'.
+    { apply in_map_iff in Hin as (d & <- & Hd). apply in_map. apply filter_In. split; [exact Hd|].
+      apply negb_true_iff. now apply mem_name_false. }
+    split; [exact Hin'|]. now apply (frame_realloc std (st_extras s)).
+  - unfold do_assign. destruct (find_dim _ _); [|now split]. destruct (_ && _) eqn:Ec; [|now split].
+    apply andb_true_iff in Ec as [Hl _]. apply Nat.eqb_eq in Hl. cbn [fst st_extras st_recs]. split; [exact Hin|].
+    rewrite map_map. rewrite <- (map_snd_combine vals (st_recs s) Hl) at 2. rewrite map_map. apply map_ext. intros [v r].
+    unfold field_of, set_field. cbn [fst snd]. apply lookup_set_other. intros ->. apply Hnot. now left.
+  - unfold do_assign_std. destruct (std_size _); [|now split]. destruct (_ && _) eqn:Ec; [|now split].
+    apply andb_true_iff in Ec as [Hl _]. apply Nat.eqb_eq in Hl. cbn [fst st_extras st_recs]. split; [exact Hin|].
+    rewrite map_map. rewrite <- (map_snd_combine vals (st_recs s) Hl) at 2. rewrite map_map. apply map_ext. now intros [v r].
+  - rewrite do_roundtrip_id by exact Hinv. now split.
+Qed.
+
+Theorem run_frame ops : forall s n, Inv s -> ops_okb s ops = true -> In n (extra_names (st_extras s)) ->
+  (forall o, In o ops -> ~ In n (op_names o)) ->
+  In n (extra_names (st_extras (run s ops)))
+  /\ map (field_of n) (st_recs (run s ops)) = map (field_of n) (st_recs s).
+Proof.
+  induction ops as [|o ops IH]; intros s n Hinv Hok Hin Hnot; [now split|].
+  cbn [ops_okb] in Hok. apply andb_true_iff in Hok as [Ho Hr]. unfold run. cbn [fold_left]. fold (run (fst (step s o)) ops).
+  destruct (step_frame s o n Hinv Hin (Hnot o (or_introl eq_refl))) as [Hin' Heq].
+  destruct (IH (fst (step s o)) n (step_inv _ _ Hinv Ho) Hr Hin' (fun o' Ho' => Hnot o' (or_intror Ho'))) as [Hin'' Heq'].
+  split; [exact Hin''|]. now rewrite Heq'.
+Qed.
+
+Theorem run_std_bytes ops : forall s, Inv s -> ops_okb s ops = true ->
+  (forall o, In o ops -> op_touches_std o = false) ->
+  map fst (st_recs (run s ops)) = map fst (st_recs s).
+Proof.
+  induction ops as [|o ops IH]; intros s Hinv Hok Hnot; [reflexivity|].
+  cbn [ops_okb] in Hok. apply andb_true_iff in Hok as [Ho Hr]. unfold run. cbn [fold_left]. fold (run (fst (step s o)) ops).
+  rewrite IH; [|now apply step_inv|exact Hr|intros o' Ho'; apply Hnot; now right].
+  apply std_bytes_step; [exact Hinv|apply Hnot; now left].
+Qed.
+
+(* an accepted assignment is what is read back *)
+Lemma lookup_set_same n v : forall m, (exists b, lookup n m = Some b) ->
+  lookup n (map (fun kv : list Z * list Z => if name_eqb (fst kv) n then (fst kv, v) else kv) m) = Some v.
+Proof.
+  induction m as [|[k b] m IH]; intros [b0 Hb]; [discriminate|]. cbn [map fst lookup] in *.
+  destruct (name_eqb k n) eqn:E; cbn [lookup]; rewrite E; [reflexivity|]. apply IH. eauto.
+Qed.
+
+Theorem assign_reads_back s n vals : Inv s -> snd (step s (Assign n vals)) = Ok tt ->
+  map (field_of n) (st_recs (fst (step s (Assign n vals)))) = map Some vals.
+Proof.
+  intros Hinv. pose proof Hinv as [(std & Hstd & Hpos & Hrecs) Hdims [Hnd Hns] Hvlr]. apply nodupb_NoDup in Hnd.
+  cbn [step]. unfold do_assign. destruct (find_dim _ _) as [d|] eqn:Ef; [|discriminate].
+  destruct (_ && _) eqn:Ec; [|discriminate]. intros _. cbn [fst st_recs].
+  apply andb_true_iff in Ec as [Hl _]. apply Nat.eqb_eq in Hl. destruct (find_dim_some _ _ _ Ef) as [Hd Hdn].
+  rewrite map_map. revert Hl Hrecs. generalize (st_recs s). induction vals as [|v vals IH]; intros [|r recs] Hl Hrecs; try discriminate; [reflexivity|].
+  cbn [combine map]. f_equal.
+  - unfold field_of, set_field. cbn [fst snd]. apply lookup_set_same.
+    destruct (proj1 (rec_wf_entries _ _ _) (Hrecs r (or_introl eq_refl))) as [_ Hm].
+    apply (lookup_present_name (st_extras s)); [exact Hm|exact Hnd|]. rewrite <- Hdn. now apply in_map.
+  - apply IH; [cbn in Hl; lia|]. intros r' Hr'. apply Hrecs. now right.
+Qed.
+
+(* ------------------------------------------------------------------------------------ *)
+(* bad removals                                                                          *)
+(* ------------------------------------------------------------------------------------ *)
+Theorem remove_bad s names :
+  (exists n, In n names /\ ~ In n (extra_names (st_extras s))) \/ ~ NoDup names ->
+  step s (Remove names) = (s, Err ELaspy).
+Proof.
+  intros H. cbn [step]. unfold do_remove.
+  replace (forallb (fun n => mem_name n (extra_names (st_extras s))) names && nodupb names) with false; [reflexivity|].
+  symmetry. apply andb_false_iff. destruct H as [(n & Hn & Hnot)|Hd].
+  - left. destruct (forallb _ names) eqn:E; [|reflexivity].
+    pose proof (proj1 (forallb_forall _ _) E n Hn) as Hm. apply mem_name_In in Hm. contradiction.
+  - right. destruct (nodupb names) eqn:E; [|reflexivity]. apply nodupb_NoDup in E. contradiction.
+Qed.
+
+Theorem remove_standard s names n : Inv s -> In n (std_names (st_fmt s)) -> In n names ->
+  step s (Remove names) = (s, Err ELaspy).
+Proof.
+  intros [_ _ [_ Hns] _] Hstd Hin. apply remove_bad. left. exists n. split; [exact Hin|]. intros Hex.
+  pose proof (proj1 (forallb_forall _ _) Hns n Hex) as Hf. apply negb_true_iff in Hf. apply mem_name_false in Hf. contradiction.
+Qed.
+
+(* an accepted removal removes exactly the named dimensions, in order *)
+Theorem remove_ok s names : Inv s -> (forall n, In n names -> In n (extra_names (st_extras s))) -> NoDup names ->
+  snd (step s (Remove names)) = Ok tt
+  /\ st_extras (fst (step s (Remove names))) = filter (fun d => negb (mem_name (ed_name d) names)) (st_extras s).
+Proof.
+  intros Hinv Hall Hnd. pose proof Hinv as [_ Hdims _ _]. cbn [step]. unfold do_remove.
+  replace (forallb (fun n => mem_name n (extra_names (st_extras s))) names && nodupb names) with true.
+  - cbn [negb]. set (ex' := filter _ (st_extras s)).
+    destruct (sync_inv ex' (st_vlrs s) (forallb_filter _ _ _ Hdims)) as (vl' & -> & _). now split.
+  - symmetry. apply andb_true_iff. split; [|now apply nodupb_NoDup].
+    apply forallb_forall. intros n Hn. apply mem_name_In. now apply Hall.
+Qed.
+
+(* an accepted addition appends the new dimensions, zero-filled *)
+Theorem add_ok s ps : Inv s -> forallb edim_okb ps = true ->
+  snd (step s (Add ps)) = Ok tt /\ st_extras (fst (step s (Add ps))) = st_extras s ++ ps.
+Proof.
+  intros [_ Hdims _ _] Hps. cbn [step]. unfold do_add. rewrite Hps. cbn [negb].
+  assert (forallb edim_okb (st_extras s ++ ps) = true) as Hall by (rewrite forallb_app, Hdims, Hps; reflexivity).
+  destruct (sync_inv _ (st_vlrs s) Hall) as (vl' & -> & _). now split.
+Qed.
+
+(* the VLRs that are not the extra-bytes record are never touched, and keep their order *)
+Theorem other_vlrs_step s o : Inv s -> filter not_eb (st_vlrs (fst (step s o))) = filter not_eb (st_vlrs s).
+Proof.
+  intros Hinv. pose proof Hinv as [_ Hdims _ _]. destruct o as [ps|names|n vals|vals|]; cbn [step].
+  - unfold do_add. destruct (forallb edim_okb ps) eqn:Eps; cbn [negb]; [|reflexivity].
+    assert (forallb edim_okb (st_extras s ++ ps) = true) as Hall by (rewrite forallb_app, Hdims, Eps; reflexivity).
+    now destruct (sync_inv _ (st_vlrs s) Hall) as (vl' & -> & _ & Hk).
+  - unfold do_remove. destruct (negb _); [reflexivity|].
+    now destruct (sync_inv _ (st_vlrs s) (forallb_filter _ (fun d => negb (mem_name (ed_name d) names)) _ Hdims)) as (vl' & -> & _ & Hk).
+  - unfold do_assign. destruct (find_dim _ _); [|reflexivity]. now destruct (_ && _).
+  - unfold do_assign_std. destruct (std_size _); [|reflexivity]. now destruct (_ && _).
+  - now rewrite do_roundtrip_id.
+Qed.
+
+(* ------------------------------------------------------------------------------------ *)
+(* tie to the header reader of Model/Las.v (dec_header): the size it derives from the     *)
+(* extra-bytes VLR written by this model is the size of the extra dimensions              *)
+(* ------------------------------------------------------------------------------------ *)
+Lemma to_bytes_1 v : 0 <= v < 256 -> to_bytes 1 v = Ok [v].
+Proof.
+  intros H. unfold to_bytes. change (256 ^ Z.of_nat 1) with 256.
+  replace ((0 <=? v) && (v <? 256)) with true by lia. cbn [le_enc]. now rewrite Z.mod_small.
+Qed.
+
+Lemma bind_ok_app (r : result (list Z)) a bs : bind r (fun x => Ok (a ++ x)) = Ok bs -> exists x, r = Ok x /\ bs = a ++ x.
+Proof. destruct r as [x|e]; cbn [bind]; [|discriminate]. intros [= <-]. eauto. Qed.
+
+Lemma enc_eb_head d bs : edim_okb d = true -> enc_eb d = Ok bs ->
+  nth 2 bs 0 = type_id (ed_type d) /\ nth 3 bs 0 = ed_options d.
+Proof.
+  intros H. pose proof (type_id_range d H) as Ht. pose proof (options_range d H) as Ho.
+  unfold enc_eb, eb_vals, eb_layout. cbn [map eb_field_value String.eqb Ascii.eqb Bool.eqb].
+  cbn [enc_fields]. cbn [enc_field zeros repeat length Nat.eqb]. rewrite (to_bytes_1 _ Ht), (to_bytes_1 _ Ho).
+  cbn [bind]. intros Hb.
+  apply bind_ok_app in Hb as (r1 & Hb & ->). apply bind_ok_app in Hb as (r2 & Hb & ->).
+  apply bind_ok_app in Hb as (r3 & _ & ->). split; reflexivity.
+Qed.
+
+Lemma eb_type_size_describe d : edim_okb d = true ->
+  eb_type_size (type_id (ed_type d)) (ed_options d) = Some (et_size (ed_type d)).
+Proof.
+  intros H. pose proof (type_id_range d H) as Ht. unfold edim_okb in H. split_andb.
+  unfold eb_type_size, ed_options. destruct (ed_type d) as [id|n]; cbn [type_id et_size et_ok] in *.
+  - unfold type_row in *. destruct (find _ extra_dim_types) as [[[[i k] sz] c]|] eqn:E; [|discriminate].
+    assert (1 <= id).
+    { apply find_some in E as [Hin He]. cbn beta iota in He. apply Z.eqb_eq in He. subst i.
+      pose proof (proj1 (forallb_forall _ _) table_rows_ok _ Hin) as Hr. unfold row_okb in Hr. split_andb. lia. }
+    replace (id =? 0) with false by lia. reflexivity.
+  - reflexivity.
+Qed.
+
+Theorem eb_total_payload ex : forallb edim_okb ex = true -> forall p, eb_payload ex = Ok p ->
+  forall fuel, (length ex <= fuel)%nat -> eb_total fuel p = Some (extras_size ex).
+Proof.
+  induction ex as [|d ex IH]; intros H p Hp fuel Hf.
+  - injection Hp as <-. destruct fuel; reflexivity.
+  - cbn [forallb] in H. apply andb_true_iff in H as [Hd Hex]. cbn [eb_payload] in Hp.
+    destruct (enc_eb d) as [bs|] eqn:Eb; [|discriminate]. cbn [bind] in Hp.
+    destruct (eb_payload ex) as [p'|] eqn:Ep; [|discriminate]. cbn [bind] in Hp. injection Hp as <-.
+    destruct (descriptor_roundtrip d Hd) as (bs' & Hbs' & Hl & _). rewrite Eb in Hbs'. injection Hbs' as <-.
+    assert (length bs = 192%nat) as Hlb by (apply len_length_eq; rewrite Hl; reflexivity).
+    destruct fuel as [|k]; [cbn [length] in Hf; lia|]. cbn [eb_total].
+    destruct (bs ++ p') as [|z zs] eqn:Ez.
+    { apply (f_equal (@length Z)) in Ez. rewrite app_length, Hlb in Ez. cbn in Ez. lia. }
+    rewrite <- Ez. rewrite (skipn_app_exact bs p' 192 Hlb).
+    destruct (enc_eb_head d bs Hd Eb) as [H2 H3].
+    rewrite !app_nth1 by lia. rewrite H2, H3, (eb_type_size_describe d Hd).
+    rewrite (IH Hex p' eq_refl k) by (cbn [length] in Hf; lia). reflexivity.
+Qed.
+
+(* ------------------------------------------------------------------------------------ *)
+(* the invariant, spelled out along a history                                            *)
+(* ------------------------------------------------------------------------------------ *)
+Lemma step_fmt s o : Inv s -> st_fmt (fst (step s o)) = st_fmt s.
+Proof.
+  intros Hinv. destruct o as [ps|names|n vals|vals|]; cbn [step].
+  - unfold do_add. destruct (negb _); [reflexivity|]. now destruct (sync_vlrs _ _).
+  - unfold do_remove. destruct (negb _); [reflexivity|]. now destruct (sync_vlrs _ _).
+  - unfold do_assign. destruct (find_dim _ _); [|reflexivity]. now destruct (_ && _).
+  - unfold do_assign_std. destruct (std_size _); [|reflexivity]. now destruct (_ && _).
+  - now rewrite do_roundtrip_id.
+Qed.
+
+Theorem run_fmt ops : forall s, Inv s -> ops_okb s ops = true -> st_fmt (run s ops) = st_fmt s.
+Proof.
+  induction ops as [|o ops IH]; intros s Hinv Hok; [reflexivity|].
+  cbn [ops_okb] in Hok. apply andb_true_iff in Hok as [Ho Hr]. unfold run. cbn [fold_left]. fold (run (fst (step s o)) ops).
+  rewrite IH; [now apply step_fmt|now apply step_inv|exact Hr].
+Qed.
+
+Theorem run_record_length s ops : Inv s -> ops_okb s ops = true ->
+  exists std, std_size (st_fmt s) = Some std
+              /\ forall r, In r (st_recs (run s ops)) -> len (rec_bytes r) = std + extras_size (st_extras (run s ops)).
+Proof.
+  intros Hinv Hok. destruct (run_inv ops s Hinv Hok) as [(std & Hstd & _ & Hrecs) _ _ _].
+  rewrite (run_fmt ops s Hinv Hok) in Hstd. exists std. split; [exact Hstd|]. intros r Hr. now apply rec_wf_len, Hrecs.
+Qed.
+
+Theorem run_vlr s ops : Inv s -> ops_okb s ops = true ->
+  match st_extras (run s ops) with
+  | [] => filter is_eb_vlr (st_vlrs (run s ops)) = []
+  | ex => exists p, filter is_eb_vlr (st_vlrs (run s ops)) = [eb_vlr p]
+                    /\ eb_payload ex = Ok p /\ len p = eb_struct_size * len ex
+                    /\ dec_ebs (length p) p = Ok ex
+  end.
+Proof.
+  intros Hinv Hok. destruct (run_inv ops s Hinv Hok) as [_ Hdims _ Hvlr]. unfold vlr_inv in Hvlr.
+  destruct (st_extras (run s ops)) as [|d ex]; [exact Hvlr|]. destruct Hvlr as (p & Hp & Hf & Hd).
+  exists p. repeat split; try assumption.
+  destruct (payload_roundtrip _ Hdims) as (p' & Hp' & Hl & _). rewrite Hp in Hp'. injection Hp' as <-.
+  unfold len. rewrite Hl, EB_val. change eb_struct_size with 192. lia.
+Qed.
+
+Theorem run_names s ops : Inv s -> ops_okb s ops = true ->
+  NoDup (extra_names (st_extras (run s ops)))
+  /\ (forall n, In n (extra_names (st_extras (run s ops))) -> ~ In n (std_names (st_fmt s)))
+  /\ forallb edim_okb (st_extras (run s ops)) = true.
+Proof.
+  intros Hinv Hok. destruct (run_inv ops s Hinv Hok) as [_ Hdims [Hnd Hns] _].
+  rewrite (run_fmt ops s Hinv Hok) in Hns. split; [now apply nodupb_NoDup|]. split; [|exact Hdims].
+  intros n Hn. pose proof (proj1 (forallb_forall _ _) Hns n Hn) as Hf. apply negb_true_iff in Hf. now apply mem_name_false.
+Qed.
